@@ -837,7 +837,23 @@ CYCLE_USE_FNS = {
     'transform': lambda sp: optree.treespec_transform(sp, lambda x: x, lambda x: x),
     'prefix': lambda sp: (sp.is_prefix(sp), sp.flatten_up_to(sp.unflatten([0] * sp.num_leaves))),
 }
-CYCLE_USES = tuple(CYCLE_USE_FNS)
+# the Python layer above the engine gets its turn too: whatever it builds internally for the TREE (treespecs, accessor lists,
+# memo entries) must not outlive the call either
+CYCLE_TREE_USE_FNS = {
+    'tree:accessors': lambda t, ns: (optree.tree_accessors(t, namespace=ns), optree.tree_paths(t, namespace=ns)),
+    'tree:flatten_with_accessor': lambda t, ns: optree.tree_flatten_with_accessor(t, namespace=ns),
+    'tree:flatten_with_path': lambda t, ns: optree.tree_flatten_with_path(t, namespace=ns),
+    'tree:map_with_accessor': lambda t, ns: (optree.tree_map_with_accessor(lambda a, x: x, t, namespace=ns), optree.tree_map_with_accessor_(lambda a, x: None, t, namespace=ns)),
+    'tree:map_with_path': lambda t, ns: (optree.tree_map_with_path(lambda p, x: x, t, namespace=ns), optree.tree_map(lambda x: x, t, namespace=ns)),
+    'tree:transpose_map': lambda t, ns: (optree.tree_transpose_map_with_accessor(lambda a, x: (x, x), t, namespace=ns), optree.tree_transpose_map(lambda x: (x, x), t, namespace=ns)),
+    'tree:broadcast_map': lambda t, ns: (optree.tree_broadcast_map_with_accessor(lambda a, x, y: x, t, t, namespace=ns), optree.tree_broadcast_common(t, t, namespace=ns)),
+    'tree:prefix_errors': lambda t, ns: (optree.prefix_errors(t, t, namespace=ns), optree.tree_broadcast_prefix(t, t, namespace=ns)),
+    'tree:reductions': lambda t, ns: (optree.tree_reduce(lambda a, b: a, t, namespace=ns), optree.tree_all(t, namespace=ns), list(optree.tree_iter(t, namespace=ns))),
+    'tree:one_level': lambda t, ns: optree.tree_flatten_one_level(t, namespace=ns),
+}
+CYCLE_USES = tuple(CYCLE_USE_FNS) + tuple(CYCLE_TREE_USE_FNS)
+SPEC_PRODUCERS = (lambda t, ns: optree.tree_structure(t, namespace=ns), lambda t, ns: optree.tree_flatten(t, namespace=ns)[1],
+                  lambda t, ns: optree.tree_flatten_with_path(t, namespace=ns)[2], lambda t, ns: optree.tree_flatten_with_accessor(t, namespace=ns)[2])
 
 
 def run_cycle(route, nest, tape, ctx):
@@ -878,7 +894,7 @@ def run_cycle(route, nest, tape, ctx):
         tree = inner
         for lvl in range(nest):
             tree = ([ctx.leaf(), tree], (tree, None), {'w': tree}, deque([tree]))[(lvl + nest) % 4]
-        spec = optree.tree_structure(tree, namespace=ns)
+        spec = SPEC_PRODUCERS[tape.draw(len(SPEC_PRODUCERS), 'cycle-producer')](tree, ns)
         if route == 'two-specs':
             other = optree.treespec_tuple([spec, spec.child(0) if spec.num_children else spec], namespace=ns)
             box.spec = other
@@ -893,7 +909,10 @@ def run_cycle(route, nest, tape, ctx):
         for _ in range(tape.draw(4, 'cycle-uses')):
             use = tape.choice(CYCLE_USES, 'cycle-use')
             try:
-                CYCLE_USE_FNS[use](spec)
+                if use in CYCLE_TREE_USE_FNS:
+                    CYCLE_TREE_USE_FNS[use](tree, ns)
+                else:
+                    CYCLE_USE_FNS[use](spec)
             except Exception:  # noqa: BLE001 - a Box is not hashable-by-value / picklable in every route; irrelevant here
                 pass
         return weakref.ref(box)
